@@ -32,6 +32,10 @@ import (
 //   drop               a's network connection drops
 //   rc0 | rc1          a reconnects with clean start 0 | 1 (and re-subscribes if no session is present)
 //   to0 | to1          a opens a second connection while the first is live (takeover)
+//   rc0:<rm> ...       (arg "rms=<a>.<b>...") the same four ops, the new CONNECT declaring Receive
+//                      Maximum <rm> (0: not declared); the first connection declares "rm". The
+//                      reference model takes the limit from the CONNECT of the current connection
+//                      only (MQTT 3.1.2.11.3: the value applies to the current Network Connection)
 //   apub:<q>:<id>      a publishes its own message a<k> at QoS q with client-chosen packet id
 //   adup:<id>          a retransmits its QoS 2 PUBLISH <id> with DUP 1 (before PUBREL); adup=1: at any
 //                      time (C10), adup=2: only while the PUBLISH packets a sent on the connection for
@@ -88,6 +92,8 @@ type qMsg struct {
 	relFault bool   // a's PUBREC was processed by the broker but the write of the PUBREL failed (injected)
 	large    bool   // payload padded to at least the subscriber's write buffer size
 	burst    int    // >0: number of the burst (one network segment of the publisher) it was sent in
+	relTx    int    // connection during whose establishment the PUBREL was resent
+	wfault   bool   // an injected write fault fired on a's connection while the message was queued (its first transmission may be what was lost)
 }
 
 type qIn struct {
@@ -133,6 +139,7 @@ type qModel struct {
 	dupConn    int  // cfg.dupcount: connection on which a last retransmitted an open QoS 2 PUBLISH
 	dupAtLimit bool // the current step is a DUP retransmission not covered by the per-packet reading of Receive Maximum
 	nburst     int
+	rmShrunk   bool // the session was resumed on this connection with a smaller Receive Maximum than the previous connection declared
 }
 
 // qTag: the message tag is the payload up to the first '.', the rest is padding.
@@ -155,8 +162,8 @@ func (q *qModel) inCount() (msgs, pks int) {
 	return
 }
 
-// redelivered: some message still outstanding on this connection was (re)transmitted as
-// part of the connection's establishment.
+// redelivered: some message was (re)transmitted, or its PUBREL resent, as part of the
+// establishment of the current connection.
 func (q *qModel) redelivered() bool { return q.resendConn == q.conn }
 
 func (q *qModel) find(prop, key, f string, a ...any) {
@@ -179,6 +186,12 @@ func (q *qModel) String() string {
 		if m.relFault {
 			b.WriteString("rf ")
 		}
+		if m.wfault {
+			b.WriteString("wq ")
+		}
+		if m.relTx == q.conn && m.relTx != 0 {
+			b.WriteString("rt ")
+		}
 		if m.large || m.burst > 0 {
 			fmt.Fprintf(&b, "L%v/b%d ", m.large, m.burst)
 		}
@@ -193,7 +206,7 @@ func (q *qModel) String() string {
 		fs = append(fs, fmt.Sprintf("%s=%d", t, n))
 	}
 	sort.Strings(fs)
-	return fmt.Sprintf("msgs[%s] old%d in%v fwd%v conn=%v rm=%d pools=%d,%d,%d,%d nd=%v ar=%v er=%v rs=%v wf=%d/%v ref=%d,%v,%v nb=%d", b.String(), len(q.old), ins, fs, q.connected, q.rm, q.npub, q.nconn, q.ain, q.ticks, q.nondefMap, q.arelConn == q.conn, q.everRel, q.resendConn == q.conn, q.nfault, q.armed, q.nref, q.refConn == q.conn, q.dupConn == q.conn, q.nburst)
+	return fmt.Sprintf("msgs[%s] old%d in%v fwd%v conn=%v rm=%d pools=%d,%d,%d,%d nd=%v ar=%v er=%v rs=%v wf=%d/%v ref=%d,%v,%v nb=%d", b.String(), len(q.old), ins, fs, q.connected, q.rm, q.npub, q.nconn, q.ain, q.ticks, q.nondefMap, q.arelConn == q.conn, q.everRel, q.resendConn == q.conn, q.nfault, q.armed, q.nref, q.refConn == q.conn, q.dupConn == q.conn, q.nburst) + map[bool]string{true: " shrunk"}[q.rmShrunk]
 }
 
 func (q *qModel) byTag(tag string) *qMsg {
@@ -395,10 +408,21 @@ func (q *qModel) recv(pks []ref.Packet) {
 			// C11 (i)
 			if q.rm > 0 {
 				weak, strict := q.outstanding()
+				// resent: messages (re)transmitted while this connection was established. The known
+				// defect (quota reset to the full Receive Maximum although they are outstanding) explains
+				// up to rm + resent packets in transit, not more
+				resent := 0
+				for _, o := range q.msgs {
+					if o.connTx == q.conn || o.relTx == q.conn {
+						resent++
+					}
+				}
 				cause := "other"
 				switch {
 				case q.connStep:
 					cause = "on-reconnect-resend"
+				case q.rmShrunk && q.arelConn != q.conn && (weak > q.rm+resent || (weak <= q.rm && strict > q.rm+resent)):
+					cause = "after-resumption-with-smaller-receive-maximum"
 				case q.redelivered():
 					cause = "after-reconnect-resend"
 				case q.arelConn == q.conn:
@@ -419,6 +443,12 @@ func (q *qModel) recv(pks []ref.Packet) {
 			}
 			if m != nil {
 				m.relConn = q.conn
+				if q.connStep {
+					// the exchange was resumed as part of the connection's establishment: it is
+					// outstanding on this connection like a resent PUBLISH
+					m.relTx = q.conn
+					q.resendConn = q.conn
+				}
 				if p.ReasonCode >= 0x80 {
 					q.find("c09", "pubrel>=0x80", "PUBREL for %s (id %d) carries reason %#x", m.tag, m.pid, p.ReasonCode)
 				}
@@ -496,6 +526,7 @@ type qCfg struct {
 	closure string
 	ticks   int
 	wf      int
+	rms     []int // Receive Maximum values a may declare when it reconnects (ops rc0:<rm> ...)
 }
 
 func argStr(arg, name, def string) string {
@@ -508,7 +539,15 @@ func argStr(arg, name, def string) string {
 }
 
 func parseQCfg(prop, arg string) qCfg {
+	var rms []int
+	if v := argStr(arg, "rms", ""); v != "" {
+		for _, x := range strings.Split(v, ".") {
+			n, _ := strconv.Atoi(x)
+			rms = append(rms, n)
+		}
+	}
 	return qCfg{
+		rms:  rms,
 		prop: prop, aVer: byte(argInt(arg, "v", 5)), rm: argInt(arg, "rm", 0), srm: argInt(arg, "srm", 0), maxPID: argInt(arg, "maxpid", 0),
 		pubs: argInt(arg, "pubs", 3), qos: argStr(arg, "qos", "12"), conns: argInt(arg, "conns", 2), clean: argInt(arg, "clean", 0) == 1,
 		take: argInt(arg, "take", 0) == 1, apubs: argInt(arg, "apubs", 0), aids: argInt(arg, "aids", 2), abase: argInt(arg, "abase", 0), aqos: argStr(arg, "aqos", "12"),
@@ -675,11 +714,12 @@ func qosExec(cfg qCfg, ops []string, alts [][]int, prefix []int) (explore.HistRe
 	q := &qModel{cfg: cfg, old: map[string]bool{}, in: map[uint16]*qIn{}, fwd: map[string]int{}, cnt: map[string]int{}, stepPubs: map[string]bool{}}
 	pts := make([][]qPoint, len(ops))
 
+	curRm := cfg.rm // Receive Maximum a declares in its next CONNECT
 	aconn := func(clean bool) ref.Packet {
 		if cfg.aVer >= 5 {
 			props := []ref.Prop{{ID: ref.PSessionExpiry, Num: 1000000}}
-			if cfg.rm > 0 {
-				props = append(props, ref.Prop{ID: ref.PReceiveMaximum, Num: uint32(cfg.rm)})
+			if curRm > 0 {
+				props = append(props, ref.Prop{ID: ref.PReceiveMaximum, Num: uint32(curRm)})
 			}
 			return world.ConnectPacket("a", 5, clean, props...)
 		}
@@ -725,6 +765,11 @@ func qosExec(cfg qCfg, ops []string, alts [][]int, prefix []int) (explore.HistRe
 			case c.FailWriteAt > 0 && c.Writes >= c.FailWriteAt:
 				// the write failed during this step: the link is dead, the peer goes away
 				q.count("write_faults_fired")
+				for _, m := range q.msgs {
+					if m.st == qQueued && m.qos > 0 {
+						m.wfault = true
+					}
+				}
 				h.logf("a: write #%d to the connection failed (injected); broker closed=%v; link dropped", c.FailWriteAt, c.Closed)
 				if !c.Closed {
 					h.Cl["a"].Drop()
@@ -761,10 +806,12 @@ func qosExec(cfg qCfg, ops []string, alts [][]int, prefix []int) (explore.HistRe
 		q.armed = false // a fault belongs to the previous connection
 		got := h.connect("a", aconn(clean))
 		q.connected = true
+		prevRm := q.rm
 		q.rm = 0
 		if cfg.aVer >= 5 {
-			q.rm = cfg.rm
+			q.rm = curRm
 		}
+		q.rmShrunk = false
 		if old != nil {
 			old.Poll()
 		}
@@ -789,6 +836,30 @@ func qosExec(cfg qCfg, ops []string, alts [][]int, prefix []int) (explore.HistRe
 			x.reconn = true
 			x.tx = 0
 		}
+		if sp && !clean && q.conn > 1 && len(cfg.rms) > 0 {
+			unl := func(n int) int {
+				if n == 0 {
+					return 65535
+				}
+				return n
+			}
+			inflight := false
+			for _, m := range q.msgs {
+				if m.st == qSent || m.st == qRecd {
+					inflight = true
+				}
+			}
+			switch {
+			case unl(q.rm) < unl(prevRm):
+				q.rmShrunk = true
+				q.count("resumptions_with_smaller_receive_maximum")
+				if inflight {
+					q.count("resumptions_with_smaller_receive_maximum_and_messages_in_flight")
+				}
+			case unl(q.rm) > unl(prevRm):
+				q.count("resumptions_with_larger_receive_maximum")
+			}
+		}
 		q.nrefConn, q.ndupConn = 0, 0
 		// expectations for the resumed session, from the states before this connection
 		type exp struct {
@@ -807,6 +878,19 @@ func qosExec(cfg qCfg, ops []string, alts [][]int, prefix []int) (explore.HistRe
 		for _, e := range exps {
 			m := e.m
 			switch e.st {
+			case qQueued:
+				// accepted for the session, never transmitted so far (published while a was offline, or
+				// held back behind a's Receive Maximum): when it is transmitted is up to flow control
+				// (§4.9), but it has to stay in the session; judged by the closure "reconnect"
+				if m.qos > 0 && !m.lost {
+					q.count("queued_at_session_resumption")
+					if m.fc || m.heldBack {
+						q.count("deferred_at_session_resumption")
+					}
+					if m.st == qQueued {
+						q.count("still_queued_after_session_resumption")
+					}
+				}
 			case qSent:
 				n := 0
 				for _, p := range got[1:] {
@@ -965,6 +1049,9 @@ func qosExec(cfg qCfg, ops []string, alts [][]int, prefix []int) (explore.HistRe
 			h.logf("a: dropped")
 			q.connected = false
 		case "rc0", "rc1", "to0", "to1":
+			if len(f) > 1 {
+				curRm = num(1)
+			}
 			q.nconn++
 			if f[0][0] == 't' {
 				q.count("takeovers")
@@ -1274,6 +1361,16 @@ func qosExec(cfg qCfg, ops []string, alts [][]int, prefix []int) (explore.HistRe
 
 	// enabled ops
 	var next []string
+	withRms := func(op string) []string {
+		if len(cfg.rms) == 0 {
+			return []string{op}
+		}
+		var out []string
+		for _, n := range cfg.rms {
+			out = append(out, fmt.Sprintf("%s:%d", op, n))
+		}
+		return out
+	}
 	if q.npub < cfg.pubs {
 		for _, c := range cfg.qos {
 			next = append(next, "pub:"+string(c))
@@ -1354,16 +1451,16 @@ func qosExec(cfg qCfg, ops []string, alts [][]int, prefix []int) (explore.HistRe
 		if q.nconn < cfg.conns {
 			next = append(next, "drop")
 			if cfg.take {
-				next = append(next, "to0")
+				next = append(next, withRms("to0")...)
 				if cfg.clean {
-					next = append(next, "to1")
+					next = append(next, withRms("to1")...)
 				}
 			}
 		}
 	} else if q.nconn < cfg.conns {
-		next = append(next, "rc0")
+		next = append(next, withRms("rc0")...)
 		if cfg.clean {
-			next = append(next, "rc1")
+			next = append(next, withRms("rc1")...)
 		}
 	}
 	if q.ticks < cfg.ticks {
@@ -1383,6 +1480,45 @@ func qosExec(cfg qCfg, ops []string, alts [][]int, prefix []int) (explore.HistRe
 	// closures on the replayed instance (do not influence the key)
 	h.last = true
 	q.report = true
+	// ackAll: a acknowledges everything outstanding on the connection and completes its own
+	// exchanges, round after round, until nothing is outstanding
+	ackAll := func() {
+		for round := 0; round < 64; round++ {
+			progress := false
+			for _, m := range q.msgs {
+				if !q.connected {
+					break
+				}
+				switch {
+				case m.st == qSent && m.lastConn == q.conn && m.qos == 1:
+					applyOp(fmt.Sprintf("ack:%d", m.pid))
+				case m.st == qSent && m.lastConn == q.conn && m.qos == 2:
+					applyOp(fmt.Sprintf("rec:%d", m.pid))
+				case m.st == qRecd && m.relConn == q.conn:
+					applyOp(fmt.Sprintf("comp:%d", m.pid))
+				default:
+					continue
+				}
+				progress = true
+				endStep()
+			}
+			var ids []int
+			for id := range q.in {
+				ids = append(ids, int(id))
+			}
+			sort.Ints(ids)
+			for _, id := range ids {
+				if q.connected && q.in[uint16(id)] != nil && !q.in[uint16(id)].stuck {
+					applyOp(fmt.Sprintf("arel:%d", id))
+					endStep()
+					progress = true
+				}
+			}
+			if !progress {
+				break
+			}
+		}
+	}
 	switch cfg.closure {
 	case "reconnect":
 		// from every state: drop + reconnect with clean start 0 must redeliver everything unacknowledged
@@ -1394,44 +1530,58 @@ func qosExec(cfg qCfg, ops []string, alts [][]int, prefix []int) (explore.HistRe
 		q.trigger = "rc0"
 		connect(false)
 		endStep()
+		// A message accepted for the session that was never transmitted (held back behind a's
+		// Receive Maximum, or published while a was offline) need not be transmitted at once
+		// after CONNACK, but it stays in the session until acknowledged: if a acknowledges
+		// everything it receives and resumes the session once more (and acknowledges again),
+		// the message must have been transmitted by then.
+		stillQueued := func() *qMsg {
+			for _, m := range q.msgs {
+				if m.st == qQueued && m.qos > 0 && !m.lost {
+					return m
+				}
+			}
+			return nil
+		}
+		if q.connected && stillQueued() != nil {
+			q.count("queued_after_resumption_probes")
+			h.logf("--- closure: a message is still queued after the session was resumed: a acknowledges everything, resumes the session again, acknowledges everything")
+			ackAll()
+			if q.connected && stillQueued() != nil {
+				h.Cl["a"].Drop()
+				q.connected = false
+				q.trigger = "rc0"
+				connect(false)
+				endStep()
+				if q.connected {
+					ackAll()
+				}
+			}
+			if m := stillQueued(); m != nil && q.connected {
+				shape := "other"
+				switch {
+				case q.everRel:
+					// earlier in the session a held-back message was released (known defect: the release
+					// deletes the released message's in-flight record although it is unacknowledged, its
+					// packet id is assigned again and a's acknowledgement then hits the wrong record)
+					shape = "after-deferred-release"
+				case m.wfault:
+					// the write that failed (injected) may have been the message's first transmission: the
+					// broker has to keep the message all the same (known defect: the deferred release
+					// deletes the in-flight record after writing, whether or not the write succeeded)
+					shape = "after-failed-write"
+				case m.fc || m.heldBack:
+					shape = "deferred-behind-receive-maximum"
+				case m.offline:
+					shape = "published-while-offline"
+				}
+				q.find("c09", "queued-message-gone-after-session-resumption:"+shape, "%s (QoS %d, published #%d, accepted for a's session, never transmitted, not reported as dropped) is still not transmitted after a resumed the session twice and acknowledged everything it received: it is no longer in the session", m.tag, m.qos, m.seq)
+			}
+		}
 	case "ackall":
 		if q.connected {
 			h.logf("--- closure: a acknowledges everything outstanding")
-			for round := 0; round < 64; round++ {
-				progress := false
-				for _, m := range q.msgs {
-					if !q.connected {
-						break
-					}
-					switch {
-					case m.st == qSent && m.lastConn == q.conn && m.qos == 1:
-						applyOp(fmt.Sprintf("ack:%d", m.pid))
-					case m.st == qSent && m.lastConn == q.conn && m.qos == 2:
-						applyOp(fmt.Sprintf("rec:%d", m.pid))
-					case m.st == qRecd && m.relConn == q.conn:
-						applyOp(fmt.Sprintf("comp:%d", m.pid))
-					default:
-						continue
-					}
-					progress = true
-					endStep()
-				}
-				var ids []int
-				for id := range q.in {
-					ids = append(ids, int(id))
-				}
-				sort.Ints(ids)
-				for _, id := range ids {
-					if q.connected && q.in[uint16(id)] != nil && !q.in[uint16(id)].stuck {
-						applyOp(fmt.Sprintf("arel:%d", id))
-						endStep()
-						progress = true
-					}
-				}
-				if !progress {
-					break
-				}
-			}
+			ackAll()
 			if q.connected {
 				for _, m := range q.msgs {
 					if m.st == qQueued {
